@@ -39,6 +39,14 @@
     first <k>                           TensorView::map / map_mut / map_with_index / map_mut_with_index /
                                         iter with a closure that panics on call k (counted from 0):
                                         the cells it was shown before             → cells=<leaf:offset …>
+                                        further via= (no closure that could give up): every iterator of
+                                        TensorView / TensorAccess (with and without indexes), first,
+                                        elementwise* with a plain tensor on either side, == in every
+                                        direction, the tensors map / map_with_index return: the first k
+                                        cells of what they see / produce             → cells=<leaf:offset …>
+    copy_reorder|copy_transpose <names> TensorView::reorder / transpose (copies into a new tensor): the
+                                        TensorAccess / TensorTranspose over the top, materialised
+                                                                                → ok shape=<shape> cells=<…> | reject
     sources                             source() / source_ref() / sources() / sources_ref() of the
                                         adaptor on top: every inner view         → shape=<shape> cells=<…> | shape=…
     length_of <name>                    TensorView::length_of / last_index_of    → length=<n>|none last=<n>|none
@@ -210,6 +218,18 @@ def memorder (v : V) : String :=
         showWalk order cs
   both spec model
 
+/-- `TensorView::reorder` / `transpose`: the access / transposition over the top, materialised -/
+def copyOp (s : State) (reorder : Bool) (namesS : String) : String :=
+  match s.stack with
+  | v :: _ =>
+    let names := parseNames namesS
+    if names.length ≠ v.shape.length ∨ prod (lens v.shape) > 4096 then "skip"
+    else
+      match (if reorder then v.mkAccess names else v.mkTranspose names) with
+      | none => "reject"
+      | some a => "ok " ++ describe a (prod (lens a.shape))
+  | [] => "skip"
+
 def step (s : State) (toks : List String) : State × String :=
   match toks with
   | "@" :: _ => ({ stack := [] }, "ok")
@@ -339,6 +359,8 @@ def step (s : State) (toks : List String) : State × String :=
       (s, "cells=" ++ (if spec = model then spec else s!"{spec} MODEL-SPEC-DISAGREE {model}"))
     | [], _ => (s, "skip")
     | _, none => (s, "bad-op")
+  | "copy_reorder" :: namesS :: _ => (s, copyOp s true namesS)
+  | "copy_transpose" :: namesS :: _ => (s, copyOp s false namesS)
   | "sources" :: _ =>
     match s.stack with
     | v :: _ =>
